@@ -454,7 +454,7 @@ pub fn function_sweep(positions: usize, safe: bool) -> Vec<GenQuery> {
     let is_safe = |e: &str| -> bool {
         let f = e.split('(').next().unwrap_or("");
         match f {
-            "exp" | "abs" | "sin" | "cos" | "square" | "sign" | "degrees" | "round" | "trunc" | "ceil" | "floor" | "-" | "greatest" | "least" | "coalesce" | "lower" | "upper" | "char_length" | "md5" => !e.contains(", -1)") || f != "round" && f != "trunc",
+            "ltrim" | "rtrim" | "btrim" | "exp" | "abs" | "sin" | "cos" | "square" | "sign" | "degrees" | "round" | "trunc" | "ceil" | "floor" | "-" | "greatest" | "least" | "coalesce" | "lower" | "upper" | "char_length" | "md5" => !e.contains(", -1)") || f != "round" && f != "trunc",
             "pow" | "power" => e.ends_with(", 2)") || e.ends_with(", 3)") || e.ends_with(", 0)"),
             "" => {
                 // infix: (a) op c  or  c op (a)
